@@ -332,10 +332,26 @@ func runC13InChild(s C13Scenario) pbt.Outcome {
 		bin = os.Args[0]
 	}
 	js, _ := json.Marshal(s)
-	cmd := exec.Command(bin, "-test.run=^TestC13ChildHugeCount$", "-test.count=1", "-test.v", "-test.timeout=120s")
-	cmd.Env = append(os.Environ(), "VERIF_C13_CHILD="+string(js), "VERIF_STATS_OUT=", "VERIF_REPLAY=")
-	out, err := cmd.CombinedOutput()
-	text := string(out)
+	// The address-space limit also binds the Go runtime's own mappings (one stack reservation per OS
+	// thread, GC workers, …). On a busy machine the runtime spawns more threads and can fail a small
+	// runtime mapping ("cannot allocate memory") although the code under test allocated nothing
+	// unusual. The child therefore runs with GOMAXPROCS=2, and an out-of-memory death only counts when
+	// it happens in three attempts out of three — an allocation sized by the forged count dies every time.
+	var text string
+	var err error
+	for attempt := 0; attempt < 3; attempt++ {
+		cmd := exec.Command(bin, "-test.run=^TestC13ChildHugeCount$", "-test.count=1", "-test.v", "-test.timeout=120s")
+		cmd.Env = append(os.Environ(), "VERIF_C13_CHILD="+string(js), "VERIF_STATS_OUT=", "VERIF_REPLAY=", "GOMAXPROCS=2")
+		var out []byte
+		out, err = cmd.CombinedOutput()
+		text = string(out)
+		if strings.Contains(text, "CHILD-OUTCOME ") || !(strings.Contains(text, "out of memory") || strings.Contains(text, "cannot allocate memory")) {
+			break
+		}
+		if attempt < 2 {
+			pbt.Counter("C13", "hugecount_child_oom_deaths_retried", 1)
+		}
+	}
 	if i := strings.Index(text, "CHILD-OUTCOME "); i >= 0 {
 		ln := text[i+len("CHILD-OUTCOME "):]
 		if j := strings.IndexByte(ln, '\n'); j >= 0 {
